@@ -61,23 +61,29 @@ fn app_marker_parse_contract() {
     let w = u32::from_le_bytes([data[0], data[1], data[2], 0]) as u64;
     let mut bs = Bitstream::new(&data[..len]);
     let r = AppMarker::parse(&mut bs, ());
+    // what the bundle admits (after the fix "validate app marker type and length"): ty 0..=3 only, and a marker of a known
+    // type must be long enough for its fixed header: ICC 5 + 12, Exif 3 + 6, XMP 3 + 29 bytes
+    let admitted = |ty: u32, length: u32| match ty { 0 => true, 1 => length >= 17, 2 => length >= 9, 3 => length >= 32, _ => false };
     match (&r, spec_app_marker(w, len * 8)) {
         (Ok(am), Some((ty, length, used))) => {
             assert!(am.ty == ty, "[C17] ty = U32(0, 1, 2 + u(1), 4 + u(2))");
             assert!(am.length == length, "[C17] length = u(16) + 1");
             assert!(bs.num_read_bits() == used, "[C17] exactly the bundle's bits are consumed");
-            assert!(am.ty <= 7 && am.length >= 1 && am.length <= 65536, "[C17,C01] range of what the parser returns");
+            assert!(admitted(am.ty, am.length) && am.length <= 65536, "[C17,C01] only markers the consumers can handle are returned");
         }
-        (Err(e), None) => assert!(e.unexpected_eof(), "[C01,C17] the only failure is running out of input"),
-        _ => assert!(false, "[C17,C01] parse succeeds exactly when the bundle is complete"),
+        (Err(e), None) => assert!(e.unexpected_eof(), "[C01,C17] an incomplete bundle is unexpected-eof"),
+        (Err(e), Some((ty, length, _))) => {
+            assert!(!admitted(ty, length), "[C17] a complete bundle is rejected only for an unknown type or a too short known marker");
+            assert!(!e.unexpected_eof(), "[C17,C11] a malformed marker is a hard error, not end-of-data");
+        }
+        (Ok(_), None) => assert!(false, "[C17,C01] parse must not succeed on an incomplete bundle"),
     }
-    // every (ty, length) pair in the range is reachable, in particular the ones the consumers mishandle
-    kani::cover!(matches!(&r, Ok(am) if am.ty == 1 && am.length == 1));
-    kani::cover!(matches!(&r, Ok(am) if am.ty == 1 && am.length == 16));
-    kani::cover!(matches!(&r, Ok(am) if am.ty == 2 && am.length == 8));
-    kani::cover!(matches!(&r, Ok(am) if am.ty == 3 && am.length == 31));
-    kani::cover!(matches!(&r, Ok(am) if am.ty == 7 && am.length == 65536));
-    kani::cover!(matches!(&r, Ok(am) if am.ty == 4));
+    // the boundary cases on both sides are reachable
+    kani::cover!(matches!(&r, Ok(am) if am.ty == 1 && am.length == 17));
+    kani::cover!(matches!(&r, Ok(am) if am.ty == 2 && am.length == 9));
+    kani::cover!(matches!(&r, Ok(am) if am.ty == 3 && am.length == 32));
+    kani::cover!(matches!(&r, Ok(am) if am.ty == 0 && am.length == 1));
+    kani::cover!(matches!(&r, Ok(am) if am.ty == 3 && am.length == 65536));
     kani::cover!(r.is_err());
 }
 
@@ -241,6 +247,25 @@ fn su32(w: u128, nbits: usize, pos: &mut usize, d: [(u32, usize); 4]) -> Option<
     Some(off + su(w, nbits, pos, n)?)
 }
 
+/// ASSUMPTION "enough data" (same as contracts/kani/jxl-frame/toc.rs): Bitstream::read_bits with the end-of-data Err pruned.
+/// `consume_bits` builds (and, on success, drops) a std::io::Error on EVERY call and a possible Err inside
+/// `collect::<Result<Vec<_>, _>>()` makes every later length symbolic; neither closes. After the refill done by
+/// peek_bits, skip_bits(n) is consume_bits(n) whenever n bits are buffered (bitstream.rs:133-141 vs 164-169, obligation
+/// bs.skip_bits) and fails exactly when consume_bits fails (input exhausted). The end-of-data outcome of the bundle
+/// parsers is therefore NOT covered by the obligations using this stub (it is `?`-propagation of that Err; bs.* prefix
+/// obligations cover the primitive).
+pub(crate) fn read_bits_enough_data<'a>(bs: &mut Bitstream<'a>, n: usize) -> jxl_bitstream::BitstreamResult<u32>
+where
+    'a: 'a,
+{
+    let ret = bs.peek_bits(n);
+    if let Err(e) = bs.skip_bits(n) {
+        std::mem::forget(e);
+        kani::assume(false);
+    }
+    Ok(ret)
+}
+
 const D_COUNT: [(u32, usize); 4] = [(0, 0), (1, 2), (4, 4), (20, 16)];
 const D_DELTA: [(u32, usize); 4] = [(0, 0), (1, 3), (9, 5), (41, 28)];
 const D_RUNS: [(u32, usize); 4] = [(1, 0), (2, 2), (5, 4), (20, 8)];
@@ -254,15 +279,15 @@ fn is_validation_failed<T>(r: &Result<T, jxl_bitstream::Error>) -> bool {
 // ------------------------------------------------------------------------------------------------
 // ScanInfo::parse (with its ScanComponentInfo entries)
 // ------------------------------------------------------------------------------------------------
+// (24 symbolic bytes: longer than the longest bundle, 51 bits; read_bits = read_bits_enough_data)
 #[kani::proof]
-#[kani::unwind(9)]
+#[kani::unwind(6)]
+#[kani::stub(jxl_bitstream::Bitstream::read_bits, read_bits_enough_data)]
 fn scan_info_parse_contract() {
-    let data: [u8; 16] = kani::any();
-    let len: usize = kani::any();
-    kani::assume(len <= 7); // the longest bundle has 2 + 6 + 6 + 4 + 4 + 4 * 6 + 5 = 51 bits
-    let w = word16(&data);
-    let nbits = len * 8;
-    let mut bs = Bitstream::new(&data[..len]);
+    let data: [u8; 24] = kani::any();
+    let w = u128::from_le_bytes([data[0], data[1], data[2], data[3], data[4], data[5], data[6], data[7], data[8], data[9], data[10], data[11], data[12], data[13], data[14], data[15]]);
+    let nbits = 128;
+    let mut bs = Bitstream::new(&data);
     let r = ScanInfo::parse(&mut bs, ());
     // spec
     let mut pos = 0usize;
@@ -296,12 +321,10 @@ fn scan_info_parse_contract() {
             assert!(si.last_needed_pass as u32 == lnp && lnp <= 10, "[C17] last_needed_pass = U32(0, 1, 2, 3 + u(3))");
             assert!(bs.num_read_bits() == pos, "[C17] exactly the bundle's bits are consumed");
         }
-        (Err(e), None) => assert!(e.unexpected_eof(), "[C01,C17] the only failure is running out of input"),
-        _ => assert!(false, "[C17,C01] parse succeeds exactly when the bundle is complete"),
+        _ => assert!(false, "[C17,C01] a complete bundle parses"),
     }
     kani::cover!(matches!(&r, Ok(si) if si.component_info.len() == 4 && si.last_needed_pass == 10));
     kani::cover!(matches!(&r, Ok(si) if si.component_info.len() == 1 && si.ss == 63 && si.ah == 15));
-    kani::cover!(r.is_err() && len == 6);
     std::mem::forget(r);
 }
 
@@ -314,9 +337,10 @@ fn scan_info_parse_contract() {
 //    (reconstruct.rs:537, 556, 560) and process_scan a 3-entry channel permutation (scan.rs:443) with comp_idx.
 // ------------------------------------------------------------------------------------------------
 #[kani::proof]
-#[kani::unwind(9)]
+#[kani::unwind(6)]
+#[kani::stub(jxl_bitstream::Bitstream::read_bits, read_bits_enough_data)]
 fn scan_info_spectral_range_pre() {
-    let data: [u8; 7] = kani::any();
+    let data: [u8; 24] = kani::any();
     let mut bs = Bitstream::new(&data);
     let r = ScanInfo::parse(&mut bs, ());
     if let Ok(si) = &r {
@@ -328,9 +352,10 @@ fn scan_info_spectral_range_pre() {
 }
 
 #[kani::proof]
-#[kani::unwind(9)]
+#[kani::unwind(6)]
+#[kani::stub(jxl_bitstream::Bitstream::read_bits, read_bits_enough_data)]
 fn scan_info_comp_idx_pre() {
-    let data: [u8; 7] = kani::any();
+    let data: [u8; 24] = kani::any();
     let mut bs = Bitstream::new(&data);
     let r = ScanInfo::parse(&mut bs, ());
     if let Ok(si) = &r {
@@ -343,7 +368,40 @@ fn scan_info_comp_idx_pre() {
 }
 
 // ------------------------------------------------------------------------------------------------
+// ExtraZeroRun::parse (one entry of the extra_zero_runs list, before delta decoding)
+// ------------------------------------------------------------------------------------------------
+#[kani::proof]
+#[kani::unwind(6)]
+#[kani::stub(jxl_bitstream::Bitstream::read_bits, read_bits_enough_data)]
+fn extra_zero_run_parse_contract() {
+    let data: [u8; 24] = kani::any();
+    let w = u128::from_le_bytes([data[0], data[1], data[2], data[3], data[4], data[5], data[6], data[7], data[8], data[9], data[10], data[11], data[12], data[13], data[14], data[15]]);
+    let mut bs = Bitstream::new(&data);
+    let r = ExtraZeroRun::parse(&mut bs, ());
+    let mut pos = 0usize;
+    let runs = su32(w, 128, &mut pos, D_RUNS);
+    let delta = su32(w, 128, &mut pos, D_DELTA);
+    match (&r, runs, delta) {
+        (Ok(z), Some(runs), Some(delta)) => {
+            assert!(z.num_runs == runs && (1..=275).contains(&runs), "[C17,C01] num_runs = U32(1, 2 + u(2), 5 + u(4), 20 + u(8)), read first");
+            assert!(z.run_length == delta && delta <= 41 + (1 << 28) - 1, "[C17,C01] block-index delta = U32(0, 1 + u(3), 9 + u(5), 41 + u(28)), read second");
+            assert!(bs.num_read_bits() == pos, "[C17] exactly the entry's bits are consumed");
+        }
+        _ => assert!(false, "[C17,C01] a complete entry parses"),
+    }
+    kani::cover!(matches!(&r, Ok(z) if z.num_runs == 275 && z.run_length == 0));
+    kani::cover!(matches!(&r, Ok(z) if z.num_runs == 1 && z.run_length == 41 + (1 << 28) - 1));
+    std::mem::forget(r);
+}
+
+// ------------------------------------------------------------------------------------------------
 // ScanMoreInfo::parse: both delta-coded lists
+// NOT REGISTERED (scan_more_info_parse_rp2_ez1 / _rp1_ez2): they do not close. The parser collects into
+// HashSet<u32> / HashMap<u32, u32>; with the real containers CBMC runs out of memory (14 GB), with the fixed-key /
+// constant-hash models below hashbrown's probe and rehash loops are still unwound to the bound inside the (symbolic-count)
+// collect loops and symbolic execution does not finish in 20 min; `Extend::extend` / `FromIterator::from_iter` cannot be
+// replaced by recording models because Kani 0.68 cannot stub generic functions of traits. Kept as the statement of the
+// intended contract (index_0 = delta_0, index_k = index_(k-1) + delta_k + 1 for both lists).
 // ------------------------------------------------------------------------------------------------
 /// spec of the bundle on a 128-bit stream: (number of reset points, their indices, number of extra-zero-run entries,
 /// their (index, num_runs), bits used, some index above the limit); None = incomplete or more entries than RP / EZ
@@ -441,6 +499,7 @@ fn check_scan_more_info<const RP: usize, const EZ: usize>() {
 #[kani::stub(std::hash::RandomState::new, random_state_model)]
 #[kani::stub(<std::hash::DefaultHasher as std::hash::Hasher>::write, hasher_write_model)]
 #[kani::stub(<std::hash::DefaultHasher as std::hash::Hasher>::finish, hasher_finish_model)]
+#[kani::stub(jxl_bitstream::Bitstream::read_bits, read_bits_enough_data)]
 fn scan_more_info_parse_rp2_ez1() {
     check_scan_more_info::<2, 1>();
 }
@@ -450,6 +509,7 @@ fn scan_more_info_parse_rp2_ez1() {
 #[kani::stub(std::hash::RandomState::new, random_state_model)]
 #[kani::stub(<std::hash::DefaultHasher as std::hash::Hasher>::write, hasher_write_model)]
 #[kani::stub(<std::hash::DefaultHasher as std::hash::Hasher>::finish, hasher_finish_model)]
+#[kani::stub(jxl_bitstream::Bitstream::read_bits, read_bits_enough_data)]
 fn scan_more_info_parse_rp1_ez2() {
     check_scan_more_info::<1, 2>();
 }
